@@ -1,8 +1,12 @@
 #!/bin/sh
 # tools/try_seed.sh <patch.diff> <Cxx> [more check args]: apply to /repo, run the check, always revert.
+# Evidence and replay files of such runs go to a scratch directory, never to /verif/evidence.
 P="$1"; shift
+export VERIF_EVIDENCE_DIR="${VERIF_SCRATCH:-/var/tmp}/seed-evidence-$$"
+mkdir -p "$VERIF_EVIDENCE_DIR"
 git -C /repo apply "$P" || { echo "patch does not apply"; exit 9; }
 /verif/check "$@"; rc=$?
-git -C /repo checkout -- . 
+git -C /repo checkout -- .
+rm -rf "$VERIF_EVIDENCE_DIR"
 echo "== exit $rc"
 exit $rc
